@@ -111,3 +111,44 @@ Definition unlinkables_proportions_cumulative (props : list urow) : list ucrow :
       (frames (filter (fun u => negb (Qle_bool 1 (u_prob u))) props)).
 Definition unlinkables_data (self_scores : list (Q * Q)) : list ucrow :=
   unlinkables_proportions_cumulative (unlinkables_proportions (round_self_link self_scores)).
+
+(* ------------------------------------------------------------------ profile_columns
+   __splink__df_all_column_value_frequencies (one column):
+     select count( * ) as value_count, value, (select count(col)), (select count( * )), (select count(distinct col))
+     from t where col is not null group by col *)
+Record vfrow := { vf_value : Z; value_count : Z }.
+Definition value_frequencies (col : list (option Z)) : list vfrow :=
+  map (fun v => {| vf_value := v; value_count := lenZ (members idZ Z.leb (non_null col) v) |})
+      (group_keys idZ Z.leb (non_null col)).
+Definition total_non_null_rows (col : list (option Z)) : Z := lenZ (non_null col).
+Definition total_rows_incl_nulls (col : list (option Z)) : Z := lenZ col.
+Definition distinct_value_count (col : list (option Z)) : Z := lenZ (group_keys idZ Z.leb (non_null col)).
+
+(* df_total_in_value_counts: group by value_count: sum(value_count);
+   df_total_in_value_counts_cumulative: sum(..) over (order by value_count desc);
+   __splink__df_percentiles: 1 - cumsum / total *)
+Record pcrow := { pc_value_count : Z; sum_tokens_in_value_count_group : Z; value_count_cumsum : Z;
+                  percentile_ex_nulls : Q; percentile_inc_nulls : Q }.
+Definition total_in_value_counts (vf : list vfrow) : list (Z * Z) :=
+  map (fun c => (c, sum_by value_count (members value_count Z.leb vf c))) (group_keys value_count Z.leb vf).
+Definition percentiles (col : list (option Z)) : list pcrow :=
+  map (fun fr : list (Z * Z) * (Z * Z) * list (Z * Z) =>
+         let '(pre, x, post) := fr in
+         let cum := sum_by snd (x :: post) in
+         {| pc_value_count := fst x; sum_tokens_in_value_count_group := snd x; value_count_cumsum := cum;
+            percentile_ex_nulls := (1 - qdiv cum (total_non_null_rows col))%Q;
+            percentile_inc_nulls := (1 - qdiv cum (total_rows_incl_nulls col))%Q |})
+      (frames (total_in_value_counts (value_frequencies col))).
+
+(* top n / bottom n: order by value_count desc|asc limit n (ties in unspecified order) *)
+Fixpoint insert_by {A} (before : A -> A -> bool) (x : A) (l : list A) : list A :=
+  match l with
+  | [] => [x]
+  | h :: t => if before x h then x :: l else h :: insert_by before x t
+  end.
+Fixpoint sort_by {A} (before : A -> A -> bool) (l : list A) : list A :=
+  match l with [] => [] | h :: t => insert_by before h (sort_by before t) end.
+Definition top_n (n : nat) (col : list (option Z)) : list vfrow :=
+  firstn n (sort_by (fun a b => value_count b <=? value_count a) (value_frequencies col)).
+Definition bottom_n (n : nat) (col : list (option Z)) : list vfrow :=
+  firstn n (sort_by (fun a b => value_count a <=? value_count b) (value_frequencies col)).
